@@ -20,6 +20,7 @@ def dispatch (toks : List String) : String :=
   | "c06" :: rest => Pb.Drv.C06.handle rest
   | "c07" :: rest => Pb.Drv.C07.handle rest
   | "c08" :: rest => Pb.Drv.C08.handle rest
+  | "c09" :: rest => Pb.Drv.C09.handle rest
   | "c11" :: rest => Pb.Drv.C11.handle rest
   | "c10" :: rest => Pb.Drv.C10.handle rest
   | "c12" :: rest => Pb.Drv.C12.handle rest
